@@ -126,7 +126,8 @@ def gen_specs(run):
                 tags.append(tags[i] + " | right before its original in one batch")
         big = len(verifies) > 60
         for i, v in enumerate(verifies):
-            v["log"] = (i % 3 == 0) if big else True
+            # the pair batches are judged by the direct oracle only (model evaluation of every one of them exhausted memory in the thorough tier)
+            v["log"] = False if i >= n_single else ((i % 3 == 0) if big else True)
         specs.append({"id": f"c05-{ci}", "group": group, "members": [mem], "derived": derived, "verifies": verifies, "_tags": tags,
                       "_conf": [b, m, T, group], "with_gens": False})
     # the same binding inside a batch that spans several internal chunks: the altered triple sits in the trailing partial chunk
